@@ -178,7 +178,8 @@ class Recorder:
                 if node is not None:
                     if pid is not None:
                         (node.inj2 if node.registered else node.inj).append(pid)
-                    node.results.append((key, type(e).__name__ if isinstance(e, KeyError) else "other:" + type(e).__name__, pid))
+                    node.results.append((key, type(e).__name__ if isinstance(e, KeyError) else "other:" + type(e).__name__, pid,
+                                         default is not None))
                 raise
             if pid is not None:
                 rec.log(("CInject", rid, pid))
@@ -188,7 +189,8 @@ class Recorder:
                     fields = dict(r._asdict()) if hasattr(r, "_asdict") else {"?": repr(r)}
                     node.results.append((key, "hit", fields, pid))
                 else:
-                    node.results.append((key, "default", None))
+                    # 4th item: a default was given and exactly that object came back
+                    node.results.append((key, "default", None, default is not None and r is default))
             return r
 
         def gen_renderer(self, render_id, *a, **k):
